@@ -22,7 +22,7 @@ import (
 	"github.com/dolthub/dolt/go/zzverif/vsql"
 )
 
-const c47Rule = "one server, per case 1-2 database names (plain `dN`, needing quoting `dN-x`; each used in lower- and upper-case spellings), 8-14 drawn operations (weights depend on the state: a name in the holding area is mostly undropped or re-created, a live one mostly dropped): CREATE DATABASE (then a generated repository: 1-2 tables, 1-3 commits, optional branch with its own commit, optional tag, optional stash, staged + unstaged row changes and an untracked table), DROP DATABASE, dolt_undrop(name in either spelling), dolt_undrop() listing, dolt_purge_dropped_databases(), server restart on the same data directory, further uncommitted changes. Model: live databases (case-insensitive names) and the holding area (exact names; a second drop of the same exact name turns the older one into `<name>.backup.<ms>`). Oracle: fingerprint before DROP == fingerprint after dolt_undrop (all refs, logs, schemas, rows, working sets, status, stashes); dolt_undrop fails when a database with the same case-insensitive name exists and then neither that database (fingerprint) nor the holding area changes; after purge undrop fails and live databases are untouched; a restart changes neither live databases nor the holding area; SHOW DATABASES and the dolt_undrop() listing equal the model after every operation. Non-trivial (DESIGN): for one name the case contains, in this order, DROP of a database with uncommitted changes, CREATE of the same name, a refused undrop, DROP of the new database and a successful undrop (60% of the cases are steered along this skeleton with other operations interleaved); distinct by operation list."
+const c47Rule = "one server, per case 1-2 database names (plain `dN`, needing quoting `dN-x`; each used in lower- and upper-case spellings), 8-14 drawn operations (weights depend on the state: a name in the holding area is mostly undropped or re-created, a live one mostly dropped): CREATE DATABASE (then a generated repository: 1-2 tables, 1-3 commits, optional branch with its own commit, optional tag, optional stash, staged + unstaged row changes and an untracked table), DROP DATABASE, dolt_undrop(name in either spelling), dolt_undrop() listing, dolt_purge_dropped_databases(), server restart on the same data directory, further uncommitted changes. Model: live databases (case-insensitive names) and the holding area (exact names; a second drop of the same exact name turns the older one into `<name>.backup.<ms>`). Oracle: fingerprint before DROP == fingerprint after dolt_undrop (all refs, logs, schemas, rows, working sets, status, stashes); dolt_undrop fails when a database with the same case-insensitive name exists and then neither that database (fingerprint) nor the holding area changes; after purge undrop fails and live databases are untouched; a restart changes neither live databases nor the holding area; SHOW DATABASES and the dolt_undrop() listing equal the model after every operation. Non-trivial (DESIGN): for one name the case contains, in this order, DROP of a database with uncommitted changes, CREATE of the same name, a refused undrop, DROP of the new database and a successful undrop (70% of the cases are steered along this skeleton with other operations interleaved); distinct by operation list."
 
 var c47Assumptions = []string{
 	"when the holding area contains two databases whose names differ only by case, which of them dolt_undrop(name) restores is not asserted (database names are case-insensitive; today the first directory entry wins even if the other one matches the argument exactly — class undrop_other_spelling_restored); the restored one must still equal its own fingerprint",
@@ -279,7 +279,7 @@ func c47Run(rt *rapid.T, env *c47Env, rec *vh.Recorder) {
 	// DESIGN's non-trivial sequence per logical name: drop (with uncommitted changes) -> create the
 	// same name -> undrop refused -> drop the new one -> undrop. stage counts how far a name got.
 	stage := map[string]int{}
-	skeleton := rapid.IntRange(0, 9).Draw(rt, "follow_skeleton") < 6
+	skeleton := rapid.IntRange(0, 9).Draw(rt, "follow_skeleton") < 7
 
 	create := func(label string, lower string) {
 		exact := spell(label, lower)
@@ -359,14 +359,14 @@ func c47Run(rt *rapid.T, env *c47Env, rec *vh.Recorder) {
 			switch stage[logical[0]] {
 			case 0, 3:
 				if c.live[logical[0]] != nil {
-					add("drop"+tag, 30)
+					add("drop"+tag, 90)
 				} else {
-					add("create"+tag, 30)
+					add("create"+tag, 90)
 				}
 			case 1:
-				add("create"+tag, 30)
+				add("create"+tag, 90)
 			case 2, 4:
-				add("undrop"+tag, 30)
+				add("undrop"+tag, 90)
 			}
 		}
 		choice := rapid.SampledFrom(menu).Draw(rt, label+".op")
